@@ -79,7 +79,11 @@ def components (p : List Nat) : List Comp :=
   let lead := if isAbs then [Comp.root] else if segs.head? = some [46] then [Comp.cur] else []
   lead ++ body
 
-/-- the fold of `name_chain_from_path`; `none` = `InvalidInput` ("must be within root") -/
+/-- a path component that is text: every element is a Unicode scalar.  The line protocol writes a
+byte that is not part of valid UTF-8 as `0x110000 + byte`; `OsStr::to_str` fails on such a component -/
+def isText (n : Name) : Bool := n.all (fun c => decide (c < 0x110000))
+
+/-- the fold of `name_chain_from_path`; `none` = `InvalidInput` ("must be within root", "Non UTF-8 path") -/
 def chainFold : List Name → List Comp → Option (List Name)
   | acc, [] => some acc
   | _, .root :: cs => chainFold [] cs
@@ -88,7 +92,7 @@ def chainFold : List Name → List Comp → Option (List Name)
     match acc.reverse with
     | [] => none
     | _ :: rest => chainFold rest.reverse cs
-  | acc, .normal n :: cs => chainFold (acc ++ [n]) cs
+  | acc, .normal n :: cs => if isText n then chainFold (acc ++ [n]) cs else none
 
 def nameChain (p : List Nat) : Option (List Name) := chainFold [] (components p)
 
